@@ -5,6 +5,7 @@
  * consumed chunks released).  Oracles: refinflate (independent, instrumented) and system zlib. */
 #include "v.h"
 #include "refinflate.h"
+#include "adleredge.h"
 #include "cpusim.h"
 #include <zlib.h>
 #include "igzip_lib.h"
@@ -84,7 +85,7 @@ static const int OCH[] = { 1, 2, 3, 7, 8, 9, 15, 16, 17, 64, 223, 224, 225, 327,
 #define NICH ((int) (sizeof ICH / sizeof ICH[0]))
 #define NOCH ((int) (sizeof OCH / sizeof OCH[0]))
 /* size of the next chunk for a "kind": <N: constant ICH[kind]; N: random small; N+1: random any; N+2: 1..7; N+3: alternating 1/300; N+4: geometric */
-static int adler_c1, big_c1;
+static int adler_c1, big_c1; static long st_adler_edge[4];
 static size_t chunk_size(vrng *r, const int *tab, int ntab, int kind, long callno)
 {
 	if (kind == 99) return callno <= 1 ? (size_t) adler_c1 : 1u << 30;
@@ -554,6 +555,8 @@ static void gen_case(long idx, vrng *r, ccase *c, const char *prop)
 		else if (c->ikind < NICH && ICH[c->ikind] <= 33 && lim > 30000) lim = 30000;
 		if (c->n > lim) c->n = lim;
 	}
+	/* C11: inputs whose Adler-32 sits on a boundary of the modulus (A or B equal to 0 or 65520), see adleredge.h */
+	if (!strcmp(prop, "C11") && !adler_sat && !c->dictmode && c->n >= 600 && vrn(r, 5) == 0) { int m = adler_edge(r, inbuf, c->n); for (int b = 0; b < 4; b++) if (m >> b & 1) st_adler_edge[b]++; }
 }
 int main(int argc, char **argv)
 {
@@ -612,6 +615,7 @@ int main(int argc, char **argv)
 		}
 	}
 	v_stat("evaluations", st_streams); v_stat("library_calls", st_calls); v_stat("stored_fallback_streams", st_stored_fallback); v_stat("multiblock_streams", st_multiblock); v_stat("inputs_over_64k", st_big);
+	v_stat("inputs_with_adler_A_0", st_adler_edge[0]); v_stat("inputs_with_adler_A_65520", st_adler_edge[1]); v_stat("inputs_with_adler_B_0", st_adler_edge[2]); v_stat("inputs_with_adler_B_65520", st_adler_edge[3]);
 	v_stat("flush_points_checked", n_flushpts); v_stat("flush_calls_without_input_after_a_completed_flush", st_forced_empty); v_stat("streams_with_hist_bits_set_after_the_dictionary_calls", st_late_hb); v_stat("histories_with_a_small_chunk_then_chunks_of_hundreds_of_KB", st_bigchunk); v_stat("histories_with_flush_points_beyond_64KiB_and_window_distance_repeats", st_far_flush); v_stat("full_flush_points", n_fullpts); v_stat("full_flush_suffixes_1k", n_fullpts_with_match_data);
 	for (int a = 0; a < 24; a++) for (int b = 0; b < 24; b++) if (st_pairs[a][b]) { char e[32]; snprintf(e, sizeof e, "%d>%d", a, b); v_count("state_transitions", e, st_pairs[a][b]); }
 	for (int a = 0; a < 32; a++) if (st_tmp_resume[a]) { char e[32]; snprintf(e, sizeof e, "resume_in_state_%d", a); v_count("tmp_state_resume_points", e, st_tmp_resume[a]); }
